@@ -1,8 +1,8 @@
 """C35  Locked rows and serializable sessions cannot be overwritten concurrently."""
 import ast
 from ..loader import dotted, walk_no_nested, norm, head, calls_in
-from ..q import nodes_calling
-from ..typestate import Machine
+from ..q import nodes_calling, alias_map, deref
+from ..typestate import Machine, scenario_edges
 
 EXPLANATION = """
 Static clauses decided (necessary conditions of C35):
@@ -63,16 +63,23 @@ def run(ctx):
                '' if ok else 'an object is added to cache.for_update outside `if for_update:` (with in_transaction asserted) / the created branch', node=a.ast)
     # ---------------------------------------------------------------- RELOCK
     fc = repo.fn(CORE, 'EntityMeta._find_in_cache_'); g = cg.cfg(fc)
-    tests = [t for t in g.nodes if t.kind == 'test' and norm(t.ast) == 'for_update and obj not in cache.for_update']
+    # scenario evaluation: for_update requested and the object not in cache.for_update (tested directly or through a local holding the set)
+    amap = alias_map(fc.node)
+    def scen(fu, locked):
+        def atom(text, node):
+            if isinstance(node, ast.Name) and node.id == 'for_update': return fu
+            if isinstance(node, ast.Compare) and len(node.ops) == 1 and isinstance(node.ops[0], (ast.In, ast.NotIn)) and \
+                    (deref(fc.node, node.comparators[0], amap) or '').endswith('.for_update') and dotted(node.left) == 'obj':
+                return locked == isinstance(node.ops[0], ast.In)
+            return None
+        return scenario_edges(g, fc.node, atom, resolve=False)
+    tests = [t for t in g.nodes if t.kind == 'test' and any(isinstance(x, ast.Attribute) and x.attr == 'for_update' for x in ast.walk(t.ast))]
+    if not tests: tests = [t for t in g.nodes if t.kind == 'test' and any(isinstance(x, ast.Name) and amap.get(x.id, '').endswith('.for_update') for x in ast.walk(t.ast))]
     rets = [x for x in g.nodes if x.kind == 'stmt' and isinstance(x.ast, ast.Return) and norm(x.ast.value).startswith('(obj,')]
-    ok = bool(tests) and bool(rets)
+    ok = bool(rets)
     if ok:
-        tid = {t.id for t in tests}
-        rr = g.reach([g.entry], edge_ok=lambda x, y, lab: not (x in tid and lab == 'F'))
-        ok = not any(r.id in rr for r in rets)
-        for t in tests:
-            ts = [y for y, lab in g.succ[t.id] if lab == 'T']
-            if any(r.id in g.reach(ts) for r in rets): ok = False
+        ok = not any(r.id in g.reach([g.entry], edge_ok=scen(True, False)) for r in rets) and \
+            any(r.id in g.reach([g.entry], edge_ok=scen(True, True)) for r in rets) and any(r.id in g.reach([g.entry], edge_ok=scen(False, False)) for r in rets)
     ctx.ob('C35-RELOCK.cached-unlocked-object-not-returned-for-update', fc, tests[0].stmt if tests else fc.node, ok,
            '' if ok else 'a for_update lookup can be answered from the session cache for an object that is not in cache.for_update (no locking SELECT is issued)')
     # ---------------------------------------------------------------- BEGIN
